@@ -232,8 +232,10 @@ def check_case(case) -> Result:
         ref = ref / nr
         M = cut(MPS.from_state_amplitudes, eigenstates=eig, amplitudes=amp)
         got = tn.mps_to_dense(M.factors)
-        # the constructor builds the state by repeated truncating additions at the new state's own (default) precision
-        if np.linalg.norm(got - ref) > 2 * len(amp) * (np.sqrt(n - 1) * M.precision + 1e-7) + 1e-9:
+        # the constructor builds the state by repeated truncating additions at the new state's own (default) precision,
+        # applied to the amplitudes as given, and normalises afterwards: a truncation error eps on a vector of norm nr
+        # becomes eps / nr on the normalised state
+        if np.linalg.norm(got - ref) > 2 * len(amp) * (np.sqrt(n - 1) * M.precision + 1e-7) / min(1.0, nr) + 1e-9:
             r.fail("from_state_amplitudes", f"|MPS - dense| = {np.linalg.norm(got - ref):.3e}; amplitudes {amp}")
         if abs(np.linalg.norm(got) - 1) > 1e-6:
             r.fail("from_state_amplitudes_not_normalised", f"norm {np.linalg.norm(got)!r}")
